@@ -25,7 +25,7 @@ def main():
             p = subprocess.run([os.path.join(VERIF, "check"), pid], capture_output=True, text=True, cwd=VERIF)
         finally:
             subprocess.run(["git", "-C", "/repo", "checkout", "--", "."], check=True)
-        want = 2 if name in EXPECT2 else 1
+        want = meta.get("expected_exit", 2 if name in EXPECT2 else 1)
         line = [l for l in p.stdout.splitlines() if l.startswith("FAILED-OBLIGATION") or l.startswith("UNDECIDED:")][:1]
         ok = p.returncode == want
         bad += 0 if ok else 1
